@@ -13,8 +13,12 @@ def main():
     ap.add_argument("prop")
     ap.add_argument("--tier", default=os.environ.get("VERIF_TIER", "quick"),
                     choices=["quick", "thorough"])
+    ap.add_argument("--replay", default=None, help="re-execute one stored violation file")
     args = ap.parse_args()
     try:
+        if args.replay:
+            from . import replay
+            sys.exit(replay.run(args.prop, args.replay))
         mod = importlib.import_module("harness." + args.prop.lower())
         rc = mod.run(args.tier)
     except C.MachineryError as ex:
